@@ -4,6 +4,25 @@ import json, os, time
 VERIF = os.path.dirname(os.path.dirname(os.path.abspath(__file__)))
 
 
+def _sample(obs, per_rule=4, cap=160):
+    """up to `per_rule` obligations of every rule (so that each rule family is visible in the evidence), violations first"""
+    out, seen = [], {}
+    for o in sorted(obs, key=lambda o: o.get("status") == "ok"):
+        k = o.get("rule")
+        if seen.get(k, 0) < per_rule:
+            seen[k] = seen.get(k, 0) + 1
+            out.append(o)
+    return out[:cap]
+
+
+def _by_rule(obs):
+    d = {}
+    for o in obs:
+        r = d.setdefault(o.get("rule"), {"obligations": 0, "ok": 0})
+        r["obligations"] += 1
+        r["ok"] += o.get("status") == "ok"
+    return d
+
 class Ctx:
     """collects what one evaluation of a property's rules decided"""
 
@@ -95,7 +114,8 @@ def write_evidence(prop, tier, seed, ctx, wall, explanation, selftest, new_viol,
         "floors": {k: {"measured": v[0], "minimum": v[1]} for k, v in ctx.floors.items()},
         "clauses_decided": ctx.clauses,
         "selftest": selftest,
-        "samples": [{k: o[k] for k in ("rule", "function", "site", "status", "detail", "span") if o.get(k)} for o in obs[:60]],
+        "samples": [{k: o[k] for k in ("rule", "function", "site", "status", "detail", "span") if o.get(k)} for o in _sample(obs)],
+        "obligations_by_rule": _by_rule(obs),
         "exhaustive": True,
         "checker_cmd": "./check %s %s" % (prop, tier),
         "trusted_base": trusted or [],
